@@ -1,6 +1,9 @@
 package sim
 
 import (
+	"fmt"
+	"strings"
+
 	"github.com/evanphx/json-patch/v5/zzverif/gen"
 	"verif.local/simrt"
 )
@@ -148,6 +151,34 @@ func (sg *scenGen) genBufs(corruptPermille int) {
 	}
 	if r.P(60) {
 		sg.docs = append(sg.docs, sg.addBuf(""))
+	}
+	if r.P(50) {
+		// a pair of long arrays (64-120 elements, mostly small objects, a few other values): work
+		// that an implementation may split into batches or over workers
+		n := 64 + r.Intn(57)
+		mk := func(variant bool) string {
+			var sb strings.Builder
+			sb.WriteByte('[')
+			for i := 0; i < n; i++ {
+				if i > 0 {
+					sb.WriteByte(',')
+				}
+				switch {
+				case i%17 == 3 || i%29 == 11:
+					sb.WriteString(r.Pick([]string{"1", `"s"`, "null", "[1]", "true"}))
+				case variant && r.P(300):
+					fmt.Fprintf(&sb, `{"i":%d,"v":%s}`, i, g.Scalar())
+				default:
+					fmt.Fprintf(&sb, `{"i":%d,"v":"x"}`, i)
+				}
+			}
+			sb.WriteByte(']')
+			return sb.String()
+		}
+		a, b := sg.addBuf(mk(false)), sg.addBuf(mk(true))
+		sg.docs = append(sg.docs, a, b)
+		sg.pairs = append(sg.pairs, [2]int{a, b}, [2]int{a, b})
+		sg.faults["long_array_pair"]++
 	}
 }
 
